@@ -20,6 +20,7 @@ TOOL_ID = 3  # a free tool id (0 debugger, 1 coverage, 2 profiler, 5 optimizer)
 
 _ACTIVE = None
 _TARGETS_SEEN = set()
+_TARGETS_SEEN_G = set()
 _ALL_TARGETS = set()
 _CODE_IDS = {}
 
@@ -99,7 +100,8 @@ class PCTStrategy(object):
 
 
 class Scheduler(object):
-    def __init__(self, targets, strategy, max_fires=2, step_budget=20000):
+    def __init__(self, targets, strategy, max_fires=2, step_budget=20000, granularity='line'):
+        self.granularity = granularity      # 'line' | 'instruction' (every bytecode of the target files is a preemption point)
         self.targets = set(targets)
         self.strategy = strategy
         self.max_fires = max_fires
@@ -135,11 +137,14 @@ class Scheduler(object):
         if mon.get_tool(TOOL_ID) is None:
             mon.use_tool_id(TOOL_ID, 'vp-sched')
             mon.register_callback(TOOL_ID, mon.events.LINE, _dispatch)
-        if not self.targets <= _TARGETS_SEEN:
+            mon.register_callback(TOOL_ID, mon.events.INSTRUCTION, _dispatch)
+        key = set((t, self.granularity) for t in self.targets)
+        if not key <= _TARGETS_SEEN_G:
+            _TARGETS_SEEN_G.update(key)
             _TARGETS_SEEN |= self.targets
             mon.restart_events()
         _ACTIVE = self
-        mon.set_events(TOOL_ID, mon.events.LINE)
+        mon.set_events(TOOL_ID, mon.events.INSTRUCTION if self.granularity == 'instruction' else mon.events.LINE)
         self.monitoring = True
 
     def _stop_monitoring(self):
@@ -466,9 +471,9 @@ class RunRecord(object):
         self.result, self.error = result, error
 
 
-def run_once(make, strategy, targets, max_fires=2, step_budget=20000):
+def run_once(make, strategy, targets, max_fires=2, step_budget=20000, granularity='line'):
     """make(sched) -> callable executed as thread 0. Returns RunRecord."""
-    sched = Scheduler(targets, strategy, max_fires=max_fires, step_budget=step_budget)
+    sched = Scheduler(targets, strategy, max_fires=max_fires, step_budget=step_budget, granularity=granularity)
     fn = make(sched)
     result = error = None
     try:
@@ -478,7 +483,7 @@ def run_once(make, strategy, targets, max_fires=2, step_budget=20000):
     return RunRecord(sched, result, error)
 
 
-def explore_dfs(make, targets, K, on_run, max_runs=None, max_fires=2, step_budget=20000, shard=None):
+def explore_dfs(make, targets, K, on_run, max_runs=None, max_fires=2, step_budget=20000, shard=None, granularity='line'):
     """Stateless DFS over all schedules with at most K preemptions. on_run(record, prefix) judges each execution.
     shard=(i, n): only subtrees whose first deviating choice hashes to i are explored (root run is done by all)."""
     stack = [([], 0)]
@@ -489,7 +494,7 @@ def explore_dfs(make, targets, K, on_run, max_runs=None, max_fires=2, step_budge
             complete = False
             break
         prefix, used = stack.pop()
-        rec = run_once(make, PrefixStrategy(prefix), targets, max_fires=max_fires, step_budget=step_budget)
+        rec = run_once(make, PrefixStrategy(prefix), targets, max_fires=max_fires, step_budget=step_budget, granularity=granularity)
         runs += 1
         on_run(rec, prefix)
         # children: deviate at a later point
@@ -522,7 +527,7 @@ def strategy_from(desc):
     return PrefixStrategy(desc)
 
 
-def explore_random(make, targets, n, rng, on_run, p_switch=0.15, max_fires=2, step_budget=20000):
+def explore_random(make, targets, n, rng, on_run, p_switch=0.15, max_fires=2, step_budget=20000, granularity='line'):
     """Half uniform-random switching, half PCT with depth 2-3."""
     for k in range(n):
         seed = rng.randrange(1 << 30)
@@ -530,5 +535,5 @@ def explore_random(make, targets, n, rng, on_run, p_switch=0.15, max_fires=2, st
             desc = ('random', seed, rng.choice([0.05, p_switch, 0.4]))
         else:
             desc = ('pct', seed, rng.choice([2, 2, 3]), rng.choice([60, 200, 500]))
-        rec = run_once(make, strategy_from(desc), targets, max_fires=max_fires, step_budget=step_budget)
+        rec = run_once(make, strategy_from(desc), targets, max_fires=max_fires, step_budget=step_budget, granularity=granularity)
         on_run(rec, desc)
